@@ -162,9 +162,11 @@ pub fn plan(prop: &str, tier: &str) -> Option<Plan> {
                 u.bound = 2;
             }
             {
-                // a reader's whole critical section against a mutator, both generated
+                // a reader's whole critical section against a mutator, both generated (quick: one
+                // of the two initial states - the other went to the thorough tier when the
+                // hand-over scenario below came in)
                 let from = b.units.len();
-                for init in 0..2 {
+                for init in (if quick { 1..2 } else { 0..2 }) {
                     b.add_cases("gen/reader", e(0).set("k1", 2).set("k2", 1).set("init", init).set("pre", 2), crate::scen::gen::reader_cases(2, 1), 16);
                 }
                 b.units[from..].iter_mut().for_each(|u| u.bound = if quick { 1 } else { 2 });
@@ -176,6 +178,8 @@ pub fn plan(prop: &str, tier: &str) -> Option<Plan> {
                     b.units[from..].iter_mut().for_each(|u| u.bound = 1);
                 }
             }
+            // the link's own stamp is the only protection (three preemptions, four threads)
+            b.add_sliced("rc/handover-into-reclaimed", if quick { &[0i64][..] } else { all }, &[], 3, 16);
             b.goal("rc/stalled-dropper", "cascade-child-destructed");
             b.goal("rc/reader-second-path", "try-destruct-ran");
             b.goal("rc/ws-upgrade-vs-cascade-child", "upgrade-some");
@@ -225,6 +229,8 @@ pub fn plan(prop: &str, tier: &str) -> Option<Plan> {
             b.add("rc/upgrade-vs-attempt", few, &[&[("pre", 2), ("dist", 16), ("claim", 5)], &[("pre", 2), ("dist", 17), ("claim", 5)]], bq);
             b.add("rc/ws-upgrade-vs-cascade-child", all, &[&[("age", 4), ("pre", 2), ("claim", 5)]], bq);
             b.add("rc/weak-holder", all, &[&[("claim", 5)]], if quick { 2 } else { 4 });
+            // the stamp that WeakSnapshot::upgrade leaves must survive a stalled dropper
+            b.add_sliced("rc/stalled-dropper", if quick { &[0i64][..] } else { few }, &[&[("k", 0), ("viaweak", 1), ("claim", 5)]], 2, 8);
             let depth = if quick { 4 } else { 6 };
             for &e0 in (if quick { few } else { all }).iter() {
                 b.add_cases("seq/upgrade-histories", e(e0).set("depth", depth).set("claim", 5), seq::upgrade_cases(depth as usize), 1500);
@@ -308,6 +314,12 @@ pub fn plan(prop: &str, tier: &str) -> Option<Plan> {
             let res: Vec<i64> = if quick { vec![0, 1, 2, 7, 13, 14, 15] } else { (0..16).collect() };
             for &e0 in res.iter() {
                 b.add_cases("seq/latency", e(e0).set("grid", grid), seq::latency_cases(grid), if quick { 160 } else { 256 });
+            }
+            // the head is revived through a weak pointer during its grace period, and released
+            for pickup in 1..=3 {
+                for &e0 in (if quick { &[0i64, 13][..] } else { &res[..] }).iter() {
+                    b.add_cases("seq/latency", e(e0).set("grid", 0).set("pickup", pickup), seq::latency_cases(0), 160);
+                }
             }
             // held side leaves that stay in use (re-stamped every round) next to the spine
             for &e0 in res.iter() {
@@ -395,7 +407,7 @@ pub fn plan(prop: &str, tier: &str) -> Option<Plan> {
             bounds = json!({"N": "0..=5", "count": "0..=5", "weak N": "0..=4", "configurations": total});
         }
         "C13" | "C14" => {
-            let two: &[i64] = &[0, 2, 5, 6, 7, 10, 11];
+            let two: &[i64] = &[0, 2, 5, 6, 7, 10, 11, 12];
             // the epoch counter wraps from 2^63-1 to 0: every distance is modular
             let wrap: &[i64] = &[i64::MAX, i64::MAX - 1, i64::MAX - 2, i64::MAX - 3];
             for &pr in (if quick { &[0i64, 6][..] } else { two }) {
@@ -453,6 +465,10 @@ pub fn plan(prop: &str, tier: &str) -> Option<Plan> {
                         b.add("ebr/exit", &[0], &[&[("mode", mode), ("j", j), ("bag", bag), ("k", 3)]], bq);
                     }
                 }
+            }
+            // the survivor has held nested guards before (and dropped them in both orders)
+            for mode in [0, 1, 2] {
+                b.add("ebr/exit", &[0], &[&[("mode", mode), ("j", 1), ("bag", 64), ("k", 3), ("nested", 1)]], bq);
             }
             // the epoch counter wraps from 2^63-1 to 0 while the functions are pending
             for mode in [0, 1] {
